@@ -350,8 +350,17 @@ def rich_mol(c, p):
     for a in range(mol.n):
         mol.extra[a] = {"tag": 100 + a, "chg": c.int(f"chg{a}", -15, 15),
                         "x_coord": 1.5 * a, "y_coord": -0.25 * a, "z_coord": 0.0}
-    for (a, b) in list(mol.bonds):
+    blist = sorted(mol.bonds)
+    # one solver-chosen bond without any attribute (as graph_from_tucan builds them) and one with an extra attribute
+    bare = c.choice("bare_bond", len(blist) + 1) if blist and p.get("bond_variants", False) else len(blist)
+    extra = c.choice("extra_attr_bond", len(blist) + 1) if blist and p.get("bond_variants", False) else len(blist)
+    for k, (a, b) in enumerate(blist):
+        if k == bare:
+            mol.bonds[(a, b)] = {}
+            continue
         mol.bonds[(a, b)] = {"bond_type": c.int(f"bt{a}_{b}")}
+        if k == extra:
+            mol.bonds[(a, b)]["stereo"] = 3
     return mol
 
 
